@@ -591,6 +591,23 @@ def sp_psum_monotone(interp, st, args, kwargs, node):
     return z3.Implies(nonneg, mono)
 
 
+def sp_psum_congruence(interp, st, args, kwargs, node):
+    """LEMMA (induction on j): two integer sequences that agree on [0, n) have the same prefix sums up to n."""
+    LEMMAS_USED.add("psum_congruence: sequences that agree on [0,n) have equal prefix sums up to n (simple induction)")
+    xs, ys, n = args
+    ax = xs.arrs[0] if isinstance(xs, SymList) else xs.arr
+    ay = ys.arrs[0] if isinstance(ys, SymList) else ys.arr
+    for a_ in M.psum_axioms(ax) + M.psum_axioms(ay):
+        st.assume(a_)
+    f = M.sumfn()
+    k, j = z3.Int(V.fresh_name("k")), z3.Int(V.fresh_name("j"))
+    nz = to_z3(as_int(n))
+    agree = z3.ForAll([k], z3.Implies(z3.And(k >= 0, k < nz), z3.Select(ax, k) == z3.Select(ay, k)))
+    concl = z3.ForAll([j], z3.Implies(z3.And(j >= 0, j <= nz), f(ax, j) == f(ay, j)), patterns=[f(ax, j)])
+    concl2 = z3.ForAll([j], z3.Implies(z3.And(j >= 0, j <= nz), f(ax, j) == f(ay, j)), patterns=[f(ay, j)])
+    return z3.Implies(agree, z3.And(concl, concl2))
+
+
 def sp_maze_equal(interp, st, args, kwargs, node):
     """the specification of maze equality (C09): same kind and identical connection structure, start, end and solution
     (whichever of these the kind has); generation metadata ignored"""
@@ -614,6 +631,10 @@ def sp_rgb_is(interp, st, args, kwargs, node):
     return b_and(*[M.s_cmp(ast.Eq(), M.getitem(interp, st, img, (p, q, c), node), colour[c]) for c in range(3)])
 
 
+def sp_has_key(interp, st, args, kwargs, node):
+    return isinstance(args[0], dict) and args[1] in args[0]
+
+
 def sp_has_field(interp, st, args, kwargs, node):
     return isinstance(args[0], Rec) and args[1] in args[0].fields
 
@@ -621,8 +642,10 @@ def sp_has_field(interp, st, args, kwargs, node):
 SPEC_FUNCTIONS = {
     "rgb_is": sp_rgb_is,
     "has_field": sp_has_field,
+    "has_key": sp_has_key,
     "maze_equal": sp_maze_equal,
     "psum_monotone": sp_psum_monotone,
+    "psum_congruence": sp_psum_congruence,
     "psum": sp_psum,
     "maze_of": sp_maze_of,
     "all_cands": sp_all_cands,
